@@ -61,6 +61,8 @@ def search(chk, broken):
                                          'python': f'from py_ballisticcalc import *; len(Calculator().fire(Shot(Weapon(2,0), Ammo(DragModel({bc!r}, TableG7), Unit.FPS({mv!r})), '
                                                    f'winds=[Wind(Unit.MPH({wv!r}), Unit.Degree(0))]), Unit.Foot({R!r}), Unit.Foot({R / 10!r})).trajectory)'}))
     for it in range(n):
+        if chk.over():
+            break
         cfg = sg.gen_config(rng, 0.7)
         for k in ('cMinimumVelocity', 'cMaximumDrop', 'cMinimumAltitude'):
             cfg.pop(k, None)
